@@ -1419,3 +1419,23 @@ for _pid in ('C01', 'C03', 'C13'):
 canary('c04-cookie-trimmed', 'C04', 'crates/edp_client/src/state_machine.rs', "        Self {\n            state: ConnectionState::Disconnected,", "        let cookie = cookie.trim_end().to_owned();\n        Self {\n            state: ConnectionState::Disconnected,", 'cookie-rewritten')
 canary('c09-buffer-store-no-refresh', 'C09', 'crates/edp_client/src/fragmentation.rs', "    fn add_fragment(&mut self, fragment_id: u64, data: Vec<u8>) {\n        self.last_update = Instant::now();\n", "    fn add_fragment(&mut self, fragment_id: u64, data: Vec<u8>) {\n", 'store-without-refresh')
 canary('c09-slots-reset-counter-kept', 'C09', 'crates/edp_client/src/fragmentation.rs', "                self.fragments.resize(count.get() as usize, None);", "                self.fragments = vec![None; count.get() as usize];", 'slots-reset-counter-kept')
+_MODE_OLD = """        let use_pass_through = self
+            .negotiated_flags()
+            .as_ref()
+            .map(|f| !f.has(DistributionFlags::DIST_HDR_ATOM_CACHE))
+            .unwrap_or(true);
+"""
+_MODE_HELPER = """    fn uses_dist_header(&self) -> bool {
+        %s
+            .as_ref()
+            .map(|f| f.has(DistributionFlags::DIST_HDR_ATOM_CACHE))
+            .unwrap_or(false)
+    }
+
+    async fn send_control_message("""
+benign('benign-c07-mode-helper', 'C07', CONN, _MODE_OLD, "        let use_pass_through = !self.uses_dist_header();\n",
+       more=[(CONN, "    async fn send_control_message(", _MODE_HELPER % "self.negotiated_flags()")])
+canary('c07-mode-from-configured-flags', 'C07', CONN, _MODE_OLD, "        let use_pass_through = !self.uses_dist_header();\n", 'mode-selection',
+       more=[(CONN, "    async fn send_control_message(", _MODE_HELPER % "Some(self.config.flags)")])
+canary('c07-mode-polarity', 'C07', CONN, ".map(|f| !f.has(DistributionFlags::DIST_HDR_ATOM_CACHE))", ".map(|f| f.has(DistributionFlags::DIST_HDR_ATOM_CACHE))", 'mode-polarity')
+benign('benign-c07-mode-default-unreachable', 'C07', CONN, "            .map(|f| !f.has(DistributionFlags::DIST_HDR_ATOM_CACHE))\n            .unwrap_or(true);", "            .map(|f| !f.has(DistributionFlags::DIST_HDR_ATOM_CACHE))\n            .unwrap_or(false);")
